@@ -350,10 +350,20 @@ func C08(r *ev.Run) {
 			}
 		}
 	}
-	// (6) the same numbers through a decoded message (ties C08 to what C04 decodes)
-	for _, t := range []int{1077, 1087, 1097, 1127} {
+	// (6) the same numbers through decoded messages (ties C08 to what C04
+	// decodes).  All messages are decoded FIRST and checked afterwards, so a
+	// value that depends on a later decode (shared buffers) shows up.
+	type held struct {
+		t    int
+		m    *msm7.Message
+		w, f uint
+		rr   int64
+	}
+	var decoded []held
+	for i, t := range []int{1077, 1087, 1097, 1127, 1077, 1097} {
 		h := &ref.MSMHeader{Type: t, Timestamp: 1000, SatMask: 1 << 63, SigMask: 1 << 30, CellMask: []bool{true}}
-		sats := []ref.MSMSat{{Whole: 81, Ext: 0, Frac: 435, Rate: -135}}
+		w, f, rr := uint(81-7*i), uint(435+50*i), int64(-135+40*i)
+		sats := []ref.MSMSat{{Whole: w, Ext: 0, Frac: f, Rate: rr}}
 		sigs := []ref.MSMSig{{RangeDelta: -26835, PhaseDelta: -117960, Lock: 5, CNR: 640, RateDelta: -1170}}
 		m, err := msm7.GetMessage(ref.MSMFrame(h, sats, sigs, 0), slog.LevelInfo)
 		total++
@@ -361,11 +371,18 @@ func C08(r *ev.Run) {
 			r.Violate(ev.Violation{Fingerprint: "C08 decoded-cell-missing", What: fmt.Sprint(err), Case: map[string]interface{}{"type": t}})
 			continue
 		}
-		c := m.Signals[0][0]
-		k := cellCase{MSM7: true, Whole: 81, Frac: 435, FineRange: -26835, FinePhase: -117960, RoughRate: -135, FineRate: -1170, Wavelength: c.Wavelength, SignalID: c.ID}
-		want := new(big.Rat).Mul(exactMillis(81, 435, -26835, 29), ratC1000)
+		decoded = append(decoded, held{t, m, w, f, rr})
+	}
+	for i, d := range decoded {
+		c := d.m.Signals[0][0]
+		k := cellCase{MSM7: true, Whole: d.w, Frac: d.f, FineRange: -26835, FinePhase: -117960, RoughRate: int(d.rr), FineRate: -1170, Wavelength: c.Wavelength, SignalID: c.ID}
+		want := new(big.Rat).Mul(exactMillis(d.w, d.f, -26835, 29), ratC1000)
 		if !closeTo(c.RangeInMetres(), want) {
-			fail(&k, "RANGE decoded cell differs from formula")
+			fail(&k, fmt.Sprintf("RANGE of decoded message %d of %d (type %d) differs from the formula after the later messages were decoded", i+1, len(decoded), d.t))
+		}
+		wantRate := new(big.Rat).Add(new(big.Rat).SetInt64(d.rr), big.NewRat(-1170, 10000))
+		if !closeTo(c.PhaseRangeRate(), wantRate) {
+			fail(&k, fmt.Sprintf("RATE of decoded message %d of %d (type %d) differs from the formula after the later messages were decoded", i+1, len(decoded), d.t))
 		}
 		if c.Wavelength > 0 {
 			run(k)
